@@ -2,6 +2,8 @@ package main
 
 import (
 	"fmt"
+	"go/ast"
+	"go/constant"
 	"go/types"
 	"strings"
 
@@ -11,7 +13,7 @@ import (
 func init() {
 	register(&propDef{
 		ID:          "C01",
-		Explanation: "Decides, for ALL sites in the current source: every dynamic string that reaches an HTML text/attribute sink — in the runtime library (SSA classification of every written operand in packages templ, templ/runtime, templ/safehtml) and in every statement the generator can emit (GEM: emission paths of generator.go parsed as Go) — passes through html.EscapeString, or is a constant / safe alphabet / a listed trusted field; attribute-value sinks sit between matching literal quotes; templ.EscapeString is html.EscapeString; R6 the output buffer type hands every byte to its bufio.Writer and never writes to the underlying writer without flushing first (its forwarding methods are exempt from R1, so this is what keeps escaped text in the position it was escaped for). NOT decided: an HTML5 tokenizer's behaviour on the output (trusted base: html.EscapeString escapes & < > \" '), attribute names arriving as spread-map keys, user-constructed ComponentScript values.",
+		Explanation: "Decides, for ALL sites in the current source: every dynamic string that reaches an HTML text/attribute sink — in the runtime library (SSA classification of every written operand in packages templ, templ/runtime, templ/safehtml) and in every statement the generator can emit (GEM: emission paths of generator.go parsed as Go) — passes through html.EscapeString, or is a constant / safe alphabet / a listed trusted field; attribute-value sinks sit between matching literal quotes; templ.EscapeString is html.EscapeString; R6 the output buffer type hands every byte to its bufio.Writer and never writes to the underlying writer without flushing first (its forwarding methods are exempt from R1, so this is what keeps escaped text in the position it was escaped for). R7 in the generator, text computed from a Go expression (Expression.Value) never reaches a literal-markup sink (a fabricated parser.Text, or the literal writer) — it may only be copied into the program as code. NOT decided: an HTML5 tokenizer's behaviour on the output (trusted base: html.EscapeString escapes & < > \" '), attribute names arriving as spread-map keys, user-constructed ComponentScript values.",
 		Assumptions: []string{"html.EscapeString escapes & < > \" ' and leaves everything else unchanged", "generated code is what generator.go emits (committed _templ.go files are covered separately in the thorough tier)"},
 		Trusted:     []string{"go/types", "x/tools go/packages, go/ssa", "html.EscapeString"},
 		Run:         runC01,
@@ -80,6 +82,7 @@ func runC01(c *Ctx) {
 	gQuote(c, "C01.R3")
 	escaperIdentity(c, f, "C01.R4")
 	bufferInOrder(c, "C01.R6")
+	goTextNeverLiteralMarkup(c, "C01.R7")
 	if c.thorough() {
 		generatedSinks(c, "C01.R5")
 	}
@@ -133,6 +136,36 @@ func htmlSinkOperands(c *Ctx, f *flow, rule string) {
 			if s.Kind == "Encoder.Encode" {
 				c.ok(rule, fmt.Sprintf("%s|%s#%d", name, s.Kind, ord[s.Kind]), c.pos(s.Pos), "JSON encoder output (C03.R2 decides its HTML-safety)")
 				continue
+			}
+			if s.Kind == "fmt.Fprintf" && len(s.Operands) > 0 {
+				// the format may place a value only with %s / %v / %d: %q, %x, %+q … re-encode it with Go rules, so the
+				// attribute value or text the tokenizer reads is no longer the string that was interpolated
+				if k, ok := s.Operands[0].(*ssa.Const); ok && k.Value != nil && k.Value.Kind() == constant.String {
+					format := constant.StringVal(k.Value)
+					badVerb := ""
+					for i := 0; i < len(format); i++ {
+						if format[i] != '%' {
+							continue
+						}
+						j := i + 1
+						for j < len(format) && strings.ContainsRune("+-# 0123456789.*[]", rune(format[j])) {
+							j++
+						}
+						if j < len(format) {
+							switch format[j] {
+							case 's', 'v', 'd', '%':
+								if j > i+1 && format[j] != '%' && format[j] != 'd' {
+									badVerb = format[i : j+1]
+								}
+							default:
+								badVerb = format[i : j+1]
+							}
+						}
+						i = j
+					}
+					c.check(badVerb == "", rule, fmt.Sprintf("%s|%s#%d|format-verbs", name, s.Kind, ord[s.Kind]), c.pos(s.Pos), "values are placed with plain %s / %v / %d",
+						fmt.Sprintf("%s writes HTML with the format %q: the verb %s re-encodes its operand with Go syntax rules (backslashes, control characters, non-printable and invalid bytes become escape sequences), so the value the tokenizer reads is not the interpolated string", name, format, badVerb))
+				}
 			}
 			for oi, o := range s.Operands {
 				nops++
@@ -224,4 +257,112 @@ func escaperIdentity(c *Ctx, f *flow, rule string) {
 	}
 	good = good && nret > 0
 	c.check(good, rule, modPath+".EscapeString", c.pos(fn.Pos()), "returns html.EscapeString(param)", "templ.EscapeString no longer returns html.EscapeString of its parameter on every path: "+detail)
+}
+
+// goTextNeverLiteralMarkup: C01.R7 — the text of a Go expression (parser.Expression.Value) is code: the generator may
+// copy it into the generated program as code, but never into literal markup. A "constant folding" that unquotes a
+// string literal expression and writes it through the static-text writer skips the escaper for it
+// (`{ "</li><li>" }` would inject tags). Taint: Expression.Value and everything computed from it inside a function;
+// sinks: the value of a fabricated parser.Text, and the string handed to the range writer's literal writer.
+func goTextNeverLiteralMarkup(c *Ctx, rule string) {
+	g := c.gem()
+	info := g.info
+	isSourceSel := func(e ast.Expr) bool {
+		se, ok := ast.Unparen(e).(*ast.SelectorExpr)
+		if !ok || se.Sel.Name != "Value" {
+			return false
+		}
+		t := info.TypeOf(se.X)
+		return t != nil && types.Identical(t, g.exprType)
+	}
+	nsink := 0
+	for _, gf := range g.order {
+		fd := gf.Decl
+		tainted := map[types.Object]bool{}
+		// parameters of type Expression are sources through .Value (handled by isSourceSel)
+		has := func(e ast.Node) bool {
+			found := false
+			ast.Inspect(e, func(x ast.Node) bool {
+				switch x := x.(type) {
+				case *ast.SelectorExpr:
+					if isSourceSel(x) {
+						found = true
+					}
+				case *ast.Ident:
+					if ob := info.ObjectOf(x); ob != nil && tainted[ob] {
+						found = true
+					}
+				}
+				return !found
+			})
+			return found
+		}
+		for changed := true; changed; {
+			changed = false
+			ast.Inspect(fd.Body, func(x ast.Node) bool {
+				as, ok := x.(*ast.AssignStmt)
+				if !ok {
+					return true
+				}
+				rhsT := false
+				for _, r := range as.Rhs {
+					// an escaper call launders nothing here: escaped Go text is still not markup the author wrote,
+					// but html.EscapeString of it cannot inject — treat escaped values as clean
+					if call, ok := ast.Unparen(r).(*ast.CallExpr); ok {
+						if fn := calleeOf(info, call); fn != nil && (fullName(fn) == "html.EscapeString" || fn.Name() == "escapeQuotes" && false) {
+							continue
+						}
+					}
+					if has(r) {
+						rhsT = true
+					}
+				}
+				if rhsT {
+					for _, l := range as.Lhs {
+						if id, ok := l.(*ast.Ident); ok && id.Name != "_" && id.Name != "err" && id.Name != "ok" {
+							if ob := info.ObjectOf(id); ob != nil && !tainted[ob] {
+								if bt, isB := ob.Type().Underlying().(*types.Basic); isB && bt.Info()&types.IsString != 0 {
+									tainted[ob] = true
+									changed = true
+								}
+							}
+						}
+					}
+				}
+				return true
+			})
+		}
+		ord := 0
+		ast.Inspect(fd.Body, func(x ast.Node) bool {
+			switch x := x.(type) {
+			case *ast.CompositeLit:
+				t := info.TypeOf(x)
+				if t == nil || !strings.HasSuffix(t.String(), "/parser/v2.Text") {
+					return true
+				}
+				for _, el := range x.Elts {
+					kv, ok := el.(*ast.KeyValueExpr)
+					if !ok || types.ExprString(kv.Key) != "Value" {
+						continue
+					}
+					nsink++
+					ord++
+					c.check(!has(kv.Value), rule, fmt.Sprintf("%s|fabricated-text#%d|not-from-go-expression", gf.Key, ord), c.pos(x.Pos()), "the fabricated text node does not carry Go expression text",
+						fmt.Sprintf("%s hands %s — text computed from a Go expression — to the static-text writer as a parser.Text: static text is written verbatim (it is markup the author wrote), so the value of a string literal expression such as { \"</li><li>\" } reaches the page unescaped", gf.Name, types.ExprString(kv.Value)))
+				}
+			case *ast.CallExpr:
+				se, ok := x.Fun.(*ast.SelectorExpr)
+				if !ok || se.Sel.Name != "WriteStringLiteral" || len(x.Args) < 2 {
+					return true
+				}
+				nsink++
+				ord++
+				c.check(!has(x.Args[len(x.Args)-1]), rule, fmt.Sprintf("%s|literal-write#%d|not-from-go-expression", gf.Key, ord), c.pos(x.Pos()), "the literal write does not carry Go expression text",
+					fmt.Sprintf("%s writes %s — text computed from a Go expression — as literal markup", gf.Name, types.ExprString(x.Args[len(x.Args)-1])))
+			}
+			return true
+		})
+	}
+	c.count("literal_markup_sinks_in_generator", nsink)
+	c.floor(rule, 10)
 }
